@@ -34,6 +34,9 @@ def run(ctx, standalone=True):
     ctx.rule('C15.PENDING', lambda: rule_pending_owned(ctx), 3)
     ctx.rule('C15.NOREFUSAL', lambda: rule_reorg_unrefused(ctx), 1)
     ctx.rule('C15.KEYUSERS', lambda: rule_undo_key_users(ctx), 2)
+    # the window is measured from daemon.cached_height(): it must be the daemon's latest reply, not a filtered / high-water one
+    from . import c18x as _c18x
+    ctx.rule('C18.HEIGHTREPLY', lambda: _c18x.rule_height_reply(ctx), 1)
     if standalone:
         from . import c03 as _c03h
         ctx.rule('C15.HEIGHTS', lambda: _c03h.rule_heights(ctx), 2)
